@@ -71,6 +71,8 @@ pub trait Tab: Sized + Clone + Eq + Ord + Hash + 'static {
     fn decomp(&self, i: usize) -> (&'static str, [bool; 4]);
     fn unate(&self, i: usize, pos: bool) -> bool;
     fn text(&self, form: &str) -> String;
+    /// the formatting trait writing into a sink that fails after `limit` bytes; true if the write succeeded
+    fn text_fail(&self, form: &str, limit: usize) -> bool;
     fn canon(&self, kind: &str) -> (Self, Vec<u8>, u32);
     fn vnext(&mut self) -> bool;
     fn rel(&self, o: &Self, form: &str) -> serde_json::Value;
@@ -269,6 +271,16 @@ macro_rules! shared_methods {
                 "binary_p" => format!("{:.5b}", self),
                 _ => panic!("HARNESS: bad form"),
             }
+        }
+        fn text_fail(&self, form: &str, limit: usize) -> bool {
+            use std::fmt::Write;
+            let mut sink = crate::two::FailingSink { left: limit };
+            let res = match form {
+                "lowerhex" => write!(sink, "{:x}", self),
+                "binary" => write!(sink, "{:b}", self),
+                _ => write!(sink, "{}", self),
+            };
+            res.is_ok()
         }
         fn canon(&self, kind: &str) -> (Self, Vec<u8>, u32) {
             match kind {
